@@ -91,8 +91,24 @@ ENGINES.extend([
  {"name": "E10", "path": "harness/src/server.rs", "serves_properties": ["C19"], "kind_free_text": "scripted transport + UDP loopback for the gossip server"},
 ])
 
+# sentences appended to the level text (workloads added after the sub-agent rounds 5-6)
+EXTRA = {
+ "C05": " One catch-up call in four hands a node its OWN entry as a peer holds it (the peer may have collected tombstones first): content and heartbeat of the owner must not move.",
+ "C07": " Dense small-budget sweeps: every budget 100..700 over 1-6 members whose delta is a node header plus a lone max-version op or tiny entries, half of them with random ids / generations / 62-bit versions so that blocks are stored raw.",
+ "C10": " A sixth of the histories use members that differ by address only, a fifth spread heartbeat values over the whole u64 range.",
+ "C11": " A sixth of the histories use members that differ by address only, a fifth spread heartbeat values over the whole u64 range (a lower value may be lower by more than 2^63).",
+ "C14": " Every pair is also run under a 58-byte node id so that the smallest admissible budgets (100..130) cut the delta right after the member header (header-only reset deltas).",
+ "C17": " Plus the caller: real gossip servers on a scripted transport under the paused clock whose peers heartbeat, fall silent, are scheduled for deletion and forgotten; the SYN destinations of every round are judged against the live / dead / known sets read just before the round.",
+ "C19": " Plus persistently slow transports (every send takes 1.2-4 s for 30-60 virtual seconds, the peer's heartbeats fed through the shared lock once per second): every round still ends with its liveness evaluation, the own heartbeat rises, user access never blocks.",
+}
+ENGINES_EXTRA = {"E10": ["C19", "C17"]}
+
+
 def main():
     props = [json.loads(l)["id"] for l in open("/verif/properties.jsonl")]
+    for e in ENGINES:
+        if e["name"] in ENGINES_EXTRA:
+            e["serves_properties"] = ENGINES_EXTRA[e["name"]]
     checks = []
     for p in props:
         if p not in CHECKS:
@@ -105,7 +121,7 @@ def main():
             "evidence_file": f"/verif/evidence/{p}.json",
             "replay_cmd_template": f"./check {p} --replay {{path}}",
             "engine": eng,
-            "level_claimed": {"category": cat, "text": text, "design_ref": ref},
+            "level_claimed": {"category": cat, "text": text + EXTRA.get(p, ""), "design_ref": ref},
             "level_note": note,
             "technique": tech,
         })
